@@ -27,6 +27,7 @@ func runC19(c *Ctx, r *Report) {
 	r.Rule("C19.R1", "who may write bindings: stores into / deletes from Environment.store occur only in create, update, SetNoChecks, makeRef and Delete; create/update are called only from SetNoChecks; SetNoChecks is called only from CreateOrSet or with a constant name that is not a constant identifier")
 	r.Rule("C19.R2", "CreateOrSet tests Constant(name) and, when the name is bound to a different value, returns an Error on a path that cannot reach SetNoChecks")
 	r.Rule("C06.R1", "check precedes mutation: (shared with C06) in-place writes to the storage of a looked-up binding happen before any constant check, so a constant holding a large array or map is modified although an error is returned")
+	r.Rule("C19.R5", "object.Constant implements the documented predicate: evaluated on every ASCII character at the first and at a later position, it accepts exactly [A-Z] first and [A-Z0-9_] afterwards")
 	r.Rule("C19.R4", "register path: a register is bound to a name (setupRegister/MakeRegister) only where the name is known not to be a constant identifier")
 
 	envT := c.TypeNamed("object", "Environment")
@@ -153,6 +154,29 @@ func runC19(c *Ctx, r *Report) {
 		}
 	}
 	r.Floor("C19.R2", 2)
+
+	// R5: the predicate itself
+	{
+		acc, ok := c.rangeLoopAccepts(constantFn)
+		if !ok {
+			r.Undecided("object.Constant: body is not a range loop of if/continue/return over the character and its index")
+		} else {
+			var bad []string
+			for pos := 0; pos < 2; pos++ {
+				for ch := 0; ch < 128; ch++ {
+					want := ch >= 'A' && ch <= 'Z'
+					if pos == 1 && (ch == '_' || (ch >= '0' && ch <= '9')) {
+						want = true
+					}
+					if acc[pos][ch] != want && len(bad) < 6 {
+						bad = append(bad, fmt.Sprintf("%q at position %d: accepted=%v", rune(ch), pos, acc[pos][ch]))
+					}
+				}
+			}
+			r.Check(len(bad) == 0, "C19.R5", funcName(constantFn), "Constant accepts exactly [A-Z][A-Z0-9_]*", c.Pos(c.SSAFn(constantFn).Pos()),
+				"the constant-identifier predicate differs from the documented one ("+strings.Join(bad, "; ")+"): names that should be protected are not (or ordinary variables become unassignable)")
+		}
+	}
 
 	// R3 (shared rule id C06.R1): in-place writers on bindings obtained from the environment
 	f := c.containerFresh()
